@@ -30,7 +30,7 @@ CASE_TIMEOUT = {"quick": 600, "thorough": 1800}
 
 
 def cases(tier, rng):
-    n_cases = 12 if tier == "quick" else 70
+    n_cases = 12 if tier == "quick" else 160
     per = 10 if tier == "quick" else 30
     return [{"kind": "scenes", "n": per, "gen_seed": int(rng.integers(1 << 30)), "idx": i} for i in range(n_cases)]
 
